@@ -192,3 +192,68 @@ def requery(c):
     surf.trace(r3)
     c.ensure_eq('C16.requery.surface_uses_current_coating_and_extinction', c.val(r3.i),
                 i0 * T * c.exp(-(4 * c.pi * k2 / w) * zv * 1e3))
+
+
+def _polarized_mode(ct, tier, seed):
+    """bounded, whole lens: with polarization tracking switched on (any state) and no polarization-dependent element, the
+    intensities returned by Optic.trace must be those of the scalar trace (apertures, absorption, simple coatings)
+    (before fix c8f8b97 PolarizedRays.update_intensity's |P E|^2 replaced them: clipped rays came back at full intensity)."""
+    import random
+    import time
+    import warnings
+    import numpy as np
+    from optiland.optic import Optic
+    from optiland.materials import IdealMaterial
+    from optiland.coatings import SimpleCoating
+    from optiland.physical_apertures import RadialAperture
+    from optiland.rays.polarization_state import create_polarization
+    warnings.simplefilter('ignore')
+    np.seterr(all='ignore')
+    t0 = time.time()
+    rng = random.Random(seed * 47 + 10)
+    clauses, fails, cases = {}, [], 0
+
+    def note(cid, ok, detail, inputs):
+        c_ = clauses.setdefault(cid, {'paths': 0, 'proved': 0, 'backends': {}, 'failed': [], 'seconds': 0.0, 'bounded': True})
+        c_['paths'] += 1
+        if ok:
+            c_['proved'] += 1
+            c_['backends']['runtime'] = c_['backends'].get('runtime', 0) + 1
+        else:
+            fails.append({'clause': cid, 'draws': inputs, 'note': detail})
+    for i in range(2 if tier == 'quick' else 10):
+        par = {'r_max': rng.uniform(1.5, 3.0), 'k': rng.uniform(1e-6, 2e-5), 'T': rng.uniform(0.5, 0.95), 'n': rng.uniform(1.5, 1.7)}
+
+        def mk():
+            L = Optic()
+            L.add_surface(index=0, thickness=np.inf)
+            L.add_surface(index=1, radius=50, thickness=4, material=IdealMaterial(par['n'], par['k']), is_stop=True,
+                          aperture=RadialAperture(r_max=par['r_max']), coating=SimpleCoating(par['T'], 0.0))
+            L.add_surface(index=2, radius=-50, thickness=40)
+            L.add_surface(index=3)
+            L.set_aperture('EPD', 8)
+            L.set_field_type('angle')
+            L.add_field(y=0)
+            L.add_wavelength(0.55, is_primary=True)
+            return L
+        L = mk()
+        scalar = L.trace(0.0, 0.0, 0.55, 3, 'hexapolar').i.copy()
+        rec = np.array(L.surface_group.intensity, dtype=float).copy()
+        for st in ('unpolarized', 'H', 'RCP'):
+            Lp = mk()
+            Lp.set_polarization(create_polarization(st))
+            r = Lp.trace(0.0, 0.0, 0.55, 3, 'hexapolar')
+            cases += 1
+            inputs = {'lens': par, 'state': st}
+            note('C16.runtime.polarized_trace_keeps_aperture_absorption_and_simple_coating_losses',
+                 bool(np.allclose(r.i, scalar, rtol=1e-9, atol=1e-12, equal_nan=True)), 'polarized %s vs scalar %s' % (np.round(r.i[:4], 4), np.round(scalar[:4], 4)), inputs)
+            note('C16.runtime.per_surface_records_carry_the_scalar_losses_in_polarized_mode',
+                 bool(np.allclose(np.array(Lp.surface_group.intensity, dtype=float)[:-1], rec[:-1], rtol=1e-9, atol=1e-12, equal_nan=True)), '', inputs)
+    return {'contract': ct.name, 'functions': ct.functions, 'props': ct.props,
+            'symbolic': {'clauses': clauses, 'paths': 0, 'errors': [], 'solver_s': 0.0, 'samples': [], 'wd_assumed': [], 'assumed': []},
+            'numeric': {'accepted': cases, 'rejected': 0, 'failures': fails[:10], 'concolic_agree': 0, 'encoder_mismatches': [],
+                        'samples': [{'states': ['unpolarized', 'H', 'RCP']}]}, 'wall_s': time.time() - t0}
+
+
+contract('C16.runtime.polarized_mode', ['optiland/rays/polarized_rays.py:PolarizedRays.update_intensity', 'optiland/optic.py:Optic.trace',
+                                        SS + ':Surface._trace_real'], ['C16'], custom=_polarized_mode)(lambda c: None)
